@@ -2,6 +2,7 @@ mod engine;
 mod env;
 mod obs;
 mod props;
+mod registry;
 mod report;
 mod walkref;
 mod world;
